@@ -9,19 +9,18 @@ import (
 
 var verifModC52 *ModuleCors
 
-// VerifCorsC52 loads one rule (condition default_t()) for product "p" through ruleListConvert and runs the
+// VerifCorsC52 loads the rules (conditions chosen by the caller) for product "p" through ruleListConvert and runs the
 // real module callback on a request of the given product: preflight=false -> corsHandler (HandleReadResponse,
 // rspHeader is the backend response header, mutated in place), preflight=true -> corsPreflightHandler
 // (HandleFoundProduct).  Returns the handler's return code, the response header (nil when no response), and
 // the rule conversion error.
-func VerifCorsC52(raw CorsRuleRaw, product string, reqMethod string, reqHeader bfe_http.Header,
+func VerifCorsC52(raws []CorsRuleRaw, product string, reqMethod string, reqHeader bfe_http.Header,
 	rspHeader bfe_http.Header, preflight bool) (int, bfe_http.Header, error) {
 	if verifModC52 == nil {
 		verifModC52 = NewModuleCors()
 	}
 	m := verifModC52
-	raw.Cond = "default_t()"
-	rules, err := ruleListConvert(RuleRawList{raw})
+	rules, err := ruleListConvert(RuleRawList(raws))
 	if err != nil {
 		return 0, nil, err
 	}
